@@ -2,7 +2,6 @@
    boundary, against the documented semantics (Sm83Spec.spec_instr), over an abstract bus. *)
 From V.lib Require Import Bits.
 From V.model Require Import Uop Alu Cpu.
-From V.gen Require Import GenDispatch.
 From V.spec Require Import Sm83Spec.
 From V.proofs Require Import AluProofs.
 From Coq Require Import ZArith ZifyN ZifyBool.
@@ -23,7 +22,16 @@ Proof.
   rewrite <- N.lxor_lor by exact E. symmetry. apply N.add_nocarry_lxor. exact E.
 Qed.
 
+Lemma bit_test_ok n r f : n < 8 -> r < 256 -> wf_f f ->
+  bit_test n r f = pack (negb (N.testbit r n)) false true (fc f).
+Proof. intros; apply bit_ops_ok; assumption. Qed.
+Lemma bit_res_ok n r : n < 8 -> r < 256 -> bit_res n r = (if N.testbit r n then r - 2 ^ n else r).
+Proof. intros Hn Hr. apply (bit_ops_ok n r 0 Hn Hr). split; reflexivity. Qed.
+Lemma bit_set_ok n r : n < 8 -> r < 256 -> bit_set n r = (if N.testbit r n then r else r + 2 ^ n).
+Proof. intros Hn Hr. apply (bit_ops_ok n r 0 Hn Hr). split; reflexivity. Qed.
+
 Section CpuStep.
+  Variable T : tables.
   Variable B : Type.
   Variable brd : B -> N -> B * N.
   Variable bwr : B -> N -> N -> B.
@@ -37,9 +45,9 @@ Section CpuStep.
   Hypothesis Htrig : forall b a, btrig b a = b.
   Hypothesis Hcor : forall b, bcorrupt b = b.
 
-  Notation mcycle := (cycle B brd bwr btrig bcorrupt bime bset_ime bpending back).
+  Notation mcycle := (cycle T B brd bwr btrig bcorrupt bime bset_ime bpending back).
   Notation mexec := (exec B brd bwr btrig bime bset_ime bpending back).
-  Notation mfetch := (fetch B brd).
+  Notation mfetch := (fetch T B brd).
 
   (* run one instruction: the first machine cycle, then cycles until the next boundary (at most six in all) *)
   Definition step_if (r : cpu * B * nat) : cpu * B * nat :=
@@ -54,7 +62,7 @@ Section CpuStep.
   (* an instruction boundary at which an instruction (not an interrupt dispatch) starts *)
   Definition starts (s : cpu) (b : B) : Prop :=
     is_finished s = true /\ fault s = None /\ halted s = false /\ stopped s = false /\ eip s = false /\
-    fst (check_interrupts B bime bpending s b) = None.
+    fst (check_interrupts T B bime bpending s b) = None.
 
   Definition wf (s : cpu) : Prop :=
     ra s < 256 /\ rb s < 256 /\ rc s < 256 /\ rd s < 256 /\ re s < 256 /\ rh s < 256 /\ rl s < 256 /\
@@ -75,8 +83,8 @@ Section CpuStep.
     dtrace_of (trace (fst (fst r))) = snd (fst o) /\ N.of_nat (snd r) = snd o /\
     is_finished (fst (fst r)) = true /\ fault (fst (fst r)) = None.
 
-  Lemma check_none s b : fst (check_interrupts B bime bpending s b) = None -> halted s = false ->
-    check_interrupts B bime bpending s b = (None, s).
+  Lemma check_none s b : fst (check_interrupts T B bime bpending s b) = None -> halted s = false ->
+    check_interrupts T B bime bpending s b = (None, s).
   Proof.
     unfold check_interrupts. intros H Hh. rewrite Hh in *.
     destruct (bpending b =? 0); [reflexivity|]. destruct (bime b); [discriminate H|reflexivity].
